@@ -140,17 +140,33 @@ fn case(t: &mut Tape, rec: &mut Rec<'_>) {
     let (a, pt, rt) = envs[t.upto(envs.len())].clone();
     let trap = t.bool_p(3, 5);
     let depth = 1 + t.upto(rec.size(3, 4));
-    let tp = s::gen_policy_for(t, &rs, a, &pt, &rt, depth, 3, trap, 0);
+    // a fifth of the policies are templates (`== ?slot`, `in ?slot`, `is T in ?slot` scopes), linked per request below
+    let slots: u8 = if t.bool_p(1, 5) { 1 + t.upto(3) as u8 } else { 0 };
+    let tp = s::gen_policy_for(t, &rs, a, &pt, &rt, depth, 3, trap, slots);
     let txt = pemit::policy_text(&tp.policy, &mut text::Style::canonical());
     rec.set_key(&txt);
-    let pol = match Policy::parse(Some(PolicyId::new("p")), &txt) {
-        Ok(p) => p,
-        Err(e) => {
-            rec.fail("generated-text-rejected", format!("{txt}\n{e}"));
-            return;
+    rec.label_if(slots != 0, "template");
+    let (pol, ps): (Option<Policy>, PolicySet) = if slots == 0 {
+        match Policy::parse(Some(PolicyId::new("p")), &txt) {
+            Ok(p) => (Some(p.clone()), PolicySet::from_policies([p]).unwrap()),
+            Err(e) => {
+                rec.fail("generated-text-rejected", format!("{txt}\n{e}"));
+                return;
+            }
+        }
+    } else {
+        match cedar_policy::Template::parse(Some(PolicyId::new("p")), &txt) {
+            Ok(tpl) => {
+                let mut ps = PolicySet::new();
+                ps.add_template(tpl).unwrap();
+                (None, ps)
+            }
+            Err(e) => {
+                rec.fail("generated-text-rejected", format!("{txt}\n{e}"));
+                return;
+            }
         }
     };
-    let ps = PolicySet::from_policies([pol.clone()]).unwrap();
     let v = validate(&schema, &ps);
     let trap_kind = tp.trap.unwrap_or("none");
     rec.label(format!("trap:{trap_kind}:{}", if v.strict_ok { "accepted" } else { "rejected" }));
@@ -174,9 +190,9 @@ fn case(t: &mut Tape, rec: &mut Rec<'_>) {
     // S1/S2 on conformant worlds
     let typed: Option<Expr<Option<Type>>> = {
         let tc = Typechecker::new(schema.as_ref(), cedar_policy_core::validator::ValidationMode::Strict);
-        let tpl = pol.as_ref().template();
         let mut found = None;
-        for (env, check) in tc.typecheck_by_request_env(tpl) {
+        // (templates: the typed AST still holds slots; only whole-policy outcomes are judged for them)
+        for (env, check) in pol.iter().flat_map(|pol| tc.typecheck_by_request_env(pol.as_ref().template())) {
             let matches_env = env.principal_entity_type().map(|x| x.to_string()) == Some(pt.clone()) && env.resource_entity_type().map(|x| x.to_string()) == Some(rt.clone()) && env.action_entity_uid().map(|u| bridge::uid_of_core(u)) == Some(a.uid());
             if matches_env {
                 if let PolicyCheck::Success(e) | PolicyCheck::Irrelevant(_, e) = check {
@@ -205,7 +221,27 @@ fn case(t: &mut Tape, rec: &mut Rec<'_>) {
             absent_optional_seen = true;
         }
         let ev = Evaluator::new(creq.as_ref().clone(), ents.as_ref(), Extensions::all_available());
-        let out = ev.evaluate(pol.as_ref());
+        let subject: Policy = match &pol {
+            Some(p) => p.clone(),
+            None => {
+                // link the template with the request's own principal / resource (conformant uids of the scope's types)
+                let mut linked = ps.clone();
+                let mut vals = std::collections::HashMap::new();
+                if slots & 1 != 0 {
+                    vals.insert(cedar_policy::SlotId::principal(), bridge::euid(&req.principal));
+                }
+                if slots & 2 != 0 {
+                    vals.insert(cedar_policy::SlotId::resource(), bridge::euid(&req.resource));
+                }
+                if let Err(e) = linked.link(PolicyId::new("p"), PolicyId::new("l"), vals) {
+                    rec.label("link-rejected");
+                    rec.render(|| format!("link rejected: {e}"));
+                    continue;
+                }
+                linked.policy(&PolicyId::new("l")).unwrap().clone()
+            }
+        };
+        let out = ev.evaluate(subject.as_ref());
         match &out {
             Ok(sat) => {
                 rec.label(if *sat { "eval:sat" } else { "eval:unsat" });
